@@ -42,8 +42,13 @@ def _ent(e):
 STATE_RE = re.compile(r"r(\d+)=(pq|dpq) m=\[([^\]]*)\] h=\[([^\]]*)\] q=\[([^\]]*)\] s=(\d+)")
 
 
-def split_line(line):
-    """-> (out, ticks, {reg: (kind, entries[(k,pl,p)], heap, qp, size)})"""
+LIGHT_RE = re.compile(r"r(\d+)=(pq|dpq) .* s=(\d+)$")
+
+
+def split_line(line, light=False):
+    """-> (out, ticks, {reg: (kind, entries[(k,pl,p)], heap, qp, size)});
+    light: only kind and size are filled in (the cost oracle needs no more, and
+    parsing the contents of big queues dominates its running time)"""
     parts = line.split(" ; ")
     out = parts[0]
     ticks = 0
@@ -51,6 +56,10 @@ def split_line(line):
     for p in parts[1:]:
         if p.startswith("t="):
             ticks = int(p[2:]) if p[2:] != "-" else -1
+        elif light:
+            m = LIGHT_RE.match(p)
+            if m:
+                regs[int(m.group(1))] = (m.group(2), [], [], [], int(m.group(3)))
         else:
             m = STATE_RE.match(p)
             if m:
@@ -174,13 +183,14 @@ class Oracle:
 
     def __init__(self, want):
         self.want = want
+        self.light = not (set(want) & {"wf", "order", "extreme", "sorted"})
 
     def start(self, header):
         self.prev = {}
         self.unordered = set()
 
     def step(self, op, line):
-        out, ticks, regs = split_line(line)
+        out, ticks, regs = split_line(line, self.light)
         toks = op.split()
         if toks[0] == "fuse":
             toks = toks[2:]
@@ -679,7 +689,7 @@ class CostOracle(Oracle):
         why = Oracle.step(self, op, line)
         if why:
             return why
-        out, ticks, regs = split_line(line)
+        out, ticks, regs = split_line(line, True)
         t = op.split()
         if t[0] == "fuse" or out in ("invalid", "unwound") or out.startswith("fault") or ticks < 0:
             return None
